@@ -1,5 +1,7 @@
 //! Provides query of transactions / balances on the processed [Ledger] instance.
 
+#[cfg(okane_verif)]
+use crate::verif::std;
 use std::{borrow::Cow, collections::HashSet};
 
 use chrono::NaiveDate;
